@@ -376,7 +376,7 @@ def c09_a(ctx: Ctx):
 def c09_b(ctx: Ctx):
     """check() validates every listed job through the workspace reader, continues after a corrupted job, raises iff any was collected."""
     R = "C09-b"
-    fi = ctx.fn(CHECK)
+    fi = ctx.desugared(ctx.fn(CHECK))
     out = []
     loops = [n for n in body_nodes(fi) if isinstance(n, ast.For)]
     target = None
